@@ -218,7 +218,12 @@ func (p PubSubBackend[Result]) ListenForNotifications(
 				select {
 				case replyChan <- reply:
 				case <-ctx.Done():
-					// the caller is gone: do not block on a reply nobody reads
+					// the caller is gone or the timeout passed: do not block on a reply nobody reads,
+					// but never close the channel empty-handed when there is room for the reply
+					select {
+					case replyChan <- reply:
+					default:
+					}
 					return
 				}
 
